@@ -231,3 +231,89 @@ def integer_dtype_hazards(fn):
             out.append((n.lineno, ast.unparse(n)[:120], f"{name} inherits the dtype of its argument; with an integer-typed argument "
                                                         f"later float stores are truncated"))
     return out
+
+
+# ------------------------------------------------------------------ cancellation: |p|^2 + |q|^2 - 2 p.q
+_PRODUCTS = {"dot", "matmul", "einsum", "tensordot", "inner", "outer"}
+_REDUCERS = {"sum", "einsum", "norm", "dot", "inner", "vdot"}
+
+
+def _signed_summands(node, sign=1):
+    if isinstance(node, ast.BinOp) and isinstance(node.op, (ast.Add, ast.Sub)):
+        return _signed_summands(node.left, sign) + _signed_summands(node.right, sign if isinstance(node.op, ast.Add) else -sign)
+    if isinstance(node, ast.UnaryOp) and isinstance(node.op, ast.USub):
+        return _signed_summands(node.operand, -sign)
+    return [(sign, node)]
+
+
+def _factors(node):
+    if isinstance(node, ast.BinOp) and isinstance(node.op, ast.Mult):
+        return _factors(node.left) + _factors(node.right)
+    return [node]
+
+
+def _is_product(node):
+    for n in ast.walk(node):
+        if isinstance(n, ast.BinOp) and isinstance(n.op, ast.MatMult):
+            return True
+        if isinstance(n, ast.Call):
+            f = n.func
+            nm = f.attr if isinstance(f, ast.Attribute) else f.id if isinstance(f, ast.Name) else None
+            if nm in _PRODUCTS:
+                return True
+    return False
+
+
+def _is_square_norm(node):
+    """A reduction over squared entries: (p**2).sum(..), sum(p*p), einsum('ij,ij->i', p, p), norm(p)**2 ..."""
+    for n in ast.walk(node):
+        if not isinstance(n, ast.Call):
+            continue
+        f = n.func
+        nm = f.attr if isinstance(f, ast.Attribute) else f.id if isinstance(f, ast.Name) else None
+        if nm not in _REDUCERS:
+            continue
+        inner = [f.value] if isinstance(f, ast.Attribute) and nm == "sum" else list(n.args)
+        for e in inner:
+            for m in ast.walk(e):
+                if isinstance(m, ast.BinOp) and isinstance(m.op, ast.Pow) and isinstance(m.right, ast.Constant) and m.right.value == 2:
+                    return True
+                if isinstance(m, ast.BinOp) and isinstance(m.op, ast.Mult) and ast.dump(m.left) == ast.dump(m.right):
+                    return True
+                if isinstance(m, ast.Call) and ast.unparse(m.func).split(".")[-1] == "square":
+                    return True
+        if nm in ("einsum", "dot", "inner", "vdot"):
+            arrs = [a for a in n.args if not (isinstance(a, ast.Constant) and isinstance(a.value, str))]
+            if len(arrs) == 2 and ast.dump(arrs[0]) == ast.dump(arrs[1]):
+                return True
+        if nm == "norm":
+            return True
+    return False
+
+
+def expanded_square_distance(term):
+    """Sub-terms of the shape  |p|^2 + |q|^2 - 2 (p . q):  a squared distance computed from the expanded square.  The three
+    summands are of the size of the squared coordinates while their sum is of the size of the squared separation, so for
+    coordinates large against the separation (time stamps, offsets) the result is rounding noise - the difference must be
+    taken before the square.  Returns the offending sub-terms (as source text)."""
+    out = []
+    for n in ast.walk(term):
+        if not (isinstance(n, ast.BinOp) and isinstance(n.op, (ast.Add, ast.Sub))):
+            continue
+        sm = []
+        for sg, t in _signed_summands(n):
+            fs = _factors(t)
+            for f in fs:                      # -2 * x parses as (-2) * x
+                if isinstance(f, ast.UnaryOp) and isinstance(f.op, ast.USub) and isinstance(f.operand, ast.Constant):
+                    sg = -sg
+            sm.append((sg, t))
+        for flip in (1, -1):
+            cross = [s for sg, s in sm if sg * flip < 0 and _is_product(s)
+                     and any(isinstance(f, ast.Constant) and f.value in (2, 2.0) for ff in _factors(s)
+                             for f in [ff.operand if isinstance(ff, ast.UnaryOp) else ff])]
+            norms = [s for sg, s in sm if sg * flip > 0 and _is_square_norm(s) and not any(s is c for c in cross)]
+            if cross and len(norms) >= 2:
+                out.append(ast.unparse(n))
+                break
+    # report maximal terms only
+    return [t for t in out if not any(t != o and t in o for o in out)]
